@@ -352,18 +352,35 @@ def anchored_scenarios(n):
                 m += dm
             tl.append({"m": m, "b": 0, "bl": bls[j], "met": met})
             anchors.append(t)
+        via = "bpmlist" if i % 2 else "offset"
+        if i % 10 == 7:
+            # a long list handed over out of time order, with one change overridden on the spot (same time, listed before
+            # the one in force): sorting must keep the order of the two
+            nsec, met, t, m = 25, 4, 0, 0
+            real = [[500000, 400000, 600000, 300000][j % 4] for j in range(nsec)]
+            tl, anchors = [], []
+            for j in range(nsec):
+                if j:
+                    t, m = t + 2 * met * real[j - 1], m + 2
+                # every section start carries a placeholder tempo that the next entry overrides on the spot
+                tl += [{"m": m, "b": 0, "bl": real[j] // 2 if j % 2 else real[j] * 2, "met": met}, {"m": m, "b": 0, "bl": real[j], "met": met}]
+                anchors += [t, t]
+            k = 2 * nsec - 1
+            k, via = k + 1, "bpmlist_rot"
         qs, ts = [], []
         for j in range(k):
+            if j + 1 < k and tl[j + 1]["m"] == tl[j]["m"]:
+                continue                      # the overridden change has no extent
             span = (tl[j + 1]["m"] - tl[j]["m"]) * met * G if j + 1 < k else 3 * met * G
             for d in sorted({0, 1, r.randrange(span), span - 1}):
                 if d < span:
                     mm, bb = divmod(d, met * G)
                     qs.append([tl[j]["m"] + mm, bb])
-                    ts.append(anchors[j] + d * (bls[j] // G))
+                    ts.append(anchors[j] + d * (tl[j]["bl"] // G))
         order = list(range(len(qs)))
         r.shuffle(order)
         out.append({"kind": "anchored", "id": f"an{i}", "G": G, "tl": tl, "anchors": anchors, "t0": anchors[0],
-                    "via": "bpmlist" if i % 2 else "offset", "qs": [qs[x] for x in order], "ts": [ts[x] for x in order]})
+                    "via": via, "qs": [qs[x] for x in order][:40], "ts": [ts[x] for x in order][:40]})
     return out
 
 
@@ -376,10 +393,13 @@ def exec_anchored(scn):
     base = {"cls": f"anchored.{scn['via']}", "G": G, "tl": tl, "anchors": scn["anchors"], "t0": scn["t0"], "exc": ""}
 
     def mk():
-        if scn["via"] == "bpmlist":
+        if scn["via"] in ("bpmlist", "bpmlist_rot"):
             from reamber.base.Bpm import Bpm
             from reamber.base.lists.BpmList import BpmList
-            return BpmList([Bpm(offset=ms(a), bpm=_bpm(c["bl"]), metronome=c["met"]) for c, a in zip(tl, scn["anchors"])]).to_timing_map()
+            items = [Bpm(offset=ms(a), bpm=_bpm(c["bl"]), metronome=c["met"]) for c, a in zip(tl, scn["anchors"])]
+            if scn["via"] == "bpmlist_rot":
+                items = items[24:] + items[:24]
+            return BpmList(items).to_timing_map()
         return TimingMap.from_bpm_changes_offset([BpmChangeOffset(_bpm(c["bl"]), c["met"], ms(a)) for c, a in zip(tl, scn["anchors"])])
     recs = []
     r = dict(base, id=scn["id"] + "/offsets", op="offsets_anch", qs=[{"m": m, "b": b} for m, b in scn["qs"]], out=[])
